@@ -82,6 +82,9 @@ def run(ctx):
             # an earlier secure connection whose close completes late (unsent data in its write buffer), closed and reopened
             (dict(hosts=["10.0.0.1"], rounds=3, triggers=trig, prelude=["ok|10.0.0.1|ok+slow-close", "close", "ensure", "ok|10.0.0.1|ok"]), 2),
             (dict(hosts=["10.0.0.1"], rounds=3, triggers=trig, prelude=["ok|10.0.0.1|bad-sig+slow-close", "timer", "ok|10.0.0.1|ok"]), 2),
+            # shut down (from connected / from retrying): announcements and callers keep arriving afterwards
+            (dict(hosts=["10.0.0.1"], rounds=4, triggers=trig, prelude=["ok|10.0.0.1|ok", "shutdown"]), 2),
+            (dict(hosts=["10.0.0.1"], rounds=4, triggers=trig, prelude=["refuse", "shutdown"]), 2),
         ]
     else:
         configs = [
@@ -93,6 +96,9 @@ def run(ctx):
             (dict(hosts=["10.0.0.1"], rounds=4, triggers=trig, prelude=["ok|10.0.0.1|ok+slow-close", "close", "ensure", "ok|10.0.0.1|ok"]), 3),
             (dict(hosts=["10.0.0.1"], rounds=4, triggers=trig, prelude=["ok|10.0.0.1|bad-sig+slow-close", "timer", "ok|10.0.0.1|ok"]), 3),
             (dict(hosts=["10.0.0.1", "10.0.0.2"], rounds=4, triggers=trig, prelude=["ok|10.0.0.1|wrong-id", "ok|10.0.0.2|ok", "drop"]), 2),
+            (dict(hosts=["10.0.0.1"], rounds=5, triggers=trig, prelude=["ok|10.0.0.1|ok", "shutdown"]), 3),
+            (dict(hosts=["10.0.0.1"], rounds=5, triggers=trig, prelude=["refuse", "shutdown"]), 3),
+            (dict(hosts=["10.0.0.1"], rounds=4, triggers=trig, prelude=["ok|10.0.0.1|ok", "close", "shutdown"]), 3),
         ]
     work = plan(ctx, configs)
     ctx.bounds.update(configs=[dict(hosts=c["hosts"], rounds=c["rounds"], deviations=d) for c, d in configs])
